@@ -178,7 +178,8 @@ func (s *Sys) deliverRecv(dst *world.Chain, signer world.Account, msgs []sdk.Msg
 
 // relayerBalances sums the fee-token balances of every account that may relay.
 func (s *Sys) relayerBalances(c *world.Chain, t *transfer) int64 {
-	n := s.units(s.tokenOf(t), s.feeBalance(c, t, c.Accounts["r1"])) + s.units(s.tokenOf(t), s.feeBalance(c, t, c.Accounts["r2"])) + s.units(s.tokenOf(t), s.feeBalance(c, t, c.Accounts["r3"])) + s.units(s.tokenOf(t), s.feeBalance(c, t, c.Accounts["r4"]))
+	n := s.units(s.tokenOf(t), s.feeBalance(c, t, c.Accounts["r1"])) + s.units(s.tokenOf(t), s.feeBalance(c, t, c.Accounts["r2"])) + s.units(s.tokenOf(t), s.feeBalance(c, t, c.Accounts["r3"])) + s.units(s.tokenOf(t), s.feeBalance(c, t, c.Accounts["r4"])) +
+		s.units(s.tokenOf(t), s.feeBalance(c, t, c.Accounts["r6"])) + s.units(s.tokenOf(t), s.feeBalance(c, t, c.Accounts["r7"]))
 	if s.cfg.TSS {
 		n += s.units(s.tokenOf(t), s.feeBalance(c, t, c.Accounts["u2"]))
 	}
@@ -234,7 +235,11 @@ func (s *Sys) deliverAck(src *world.Chain, signer world.Account, msgs []sdk.Msg,
 	var relayerBalPre, senderPre int64
 	var statusPre uint8
 	var x1Pre *big.Int
+	var victimPre int64
 	if t != nil && p.SrcChain == src.Name {
+		if v := s.sharedVictim(src); v != "" {
+			victimPre = s.units(s.tokenOf(t), s.feeBalance(src, t, src.Accounts[v]))
+		}
 		x1Pre = s.holdings(src, s.tokenOf(t), src.Accounts["x1"])
 		relayerBalPre = s.relayerBalances(src, t)
 		statusPre = src.AckStatus(p.DstChain, p.Sequence)
@@ -335,6 +340,13 @@ func (s *Sys) deliverAck(src *world.Chain, signer world.Account, msgs []sdk.Msg,
 		if x1Post := s.holdings(src, s.tokenOf(t), src.Accounts["x1"]); x1Pre != nil && x1Post.Cmp(x1Pre) != 0 {
 			add("C06", "fee-paid-to-a-relayer-registered-for-another-chain-only", fmt.Sprintf("ack %s on %s: account x1 (registered as relayer for chain elsewhere-1 only) holds %s after, %s before", what, short[src.Name], x1Post, x1Pre))
 			add("C05", "fee-paid-to-a-relayer-registered-for-another-chain-only", fmt.Sprintf("ack %s on %s: account x1 (registered as relayer for chain elsewhere-1 only) holds %s after, %s before", what, short[src.Name], x1Post, x1Pre))
+		}
+		if v := s.sharedVictim(src); v != "" && strings.Contains(strings.ToLower(fieldsOf(indepAck, am.Acknowledgement)), sharedAddr) {
+			if got := s.units(s.tokenOf(t), s.feeBalance(src, t, src.Accounts[v])) - victimPre; got != t.Fee {
+				for _, prop := range []string{"C06", "C05"} {
+					add(prop, "fee-not-paid-to-the-relayer-the-acknowledgement-names", fmt.Sprintf("ack %s on %s names %s, which %s registered for %s (r1 holds the same address for another chain only): %s gained %d, the fee was %d", what, short[src.Name], sharedAddr, v, short[p.DstChain], v, got, t.Fee))
+				}
+			}
 		}
 		relayerBalPost := s.relayerBalances(src, t)
 		if relayerBalPost-relayerBalPre != t.Fee {
